@@ -1,7 +1,7 @@
 (* family 7: request ID, PacketFieldEnum, FailureNotice, VerificationParams, Service1Tm *)
 From Coq Require Import ZArith List Bool.
 From SP Require Import Base.Result Base.Bytes Run.Marshal Run.DispSph Run.DispTc Run.DispTm
-  Model.SpacePacket Model.PusTc Model.PusTm Model.ReqId Model.Fields Model.Srv1
+  Model.SpacePacket Model.PusTc Model.PusTm Model.PusTmHist Model.ReqId Model.Fields Model.Srv1
   Spec.SpacePacketSpec Spec.Srv1Spec.
 Import ListNotations.
 Open Scope Z_scope.
@@ -341,6 +341,16 @@ Definition run_srv1 (op : Z) (a : args) : args :=
               do f <- opt_fn_of (lst 5 a) (lst 6 a);
               do s <- srv1_create (int 0 0 a) (int 0 1 a) (tc_sph t) st f (lst 3 a);
               s1_roundtrip s (len (lst 3 a)) (int 7 0 a) (int 7 1 a))
+  (* Service1Tm.unpack from a buffer that may continue behind the packet, then every observable: fields incl. crc16,
+     pus_tm.pack(recalc_crc=False), pack(), == with the report decoded from exactly the packet's octets, fields again *)
+  | 767 => ret (fun x => x)
+             (let cfg := params_of (lst 1 a) in
+              do s <- srv1_unpack (lst 0 a) cfg;
+              do p1 <- tm_pack_norecalc (s1_tm s);
+              do p2 <- srv1_pack (srv1_with_tm s (snd p1));
+              do w <- srv1_unpack (slice_to (lst 0 a) (tm_packet_len (s1_tm s))) cfg;
+              do e1 <- srv1_eq s w; do e2 <- srv1_eq w s;
+              Ok (srv1_fields s ++ [fst p1; fst p2; [b2z e1; b2z e2]] ++ srv1_fields (snd p2)))
   (* ---- Spec side (independent oracle) ---- *)
   | 750 => let h := sph_of_reqid_fields (lst 0 a) in [[0]; reqid_layout h; [reqid_u32 h]]
   | 751 => [[0]; srv1_src_layout (sph_of_reqid_fields (lst 0 a)) (opt_pair (lst 1 a))
